@@ -146,6 +146,43 @@ class C03C04(Monitor):
     def __init__(self, ctx, props=("C03", "C04")):
         super().__init__(ctx)
         self.props = set(props)
+        self._ref = {}
+
+    def ref(self, sub):
+        r = self._ref.get(sub.outrel)
+        if r is None:
+            r = self._ref[sub.outrel] = sub.sc.refdag()
+        return r
+
+    def on_record(self, rec):
+        if "C04" not in self.props or not self.ctx.fault_free:
+            return
+        seq, vt, kind, vpid, d = rec
+        if kind == "job_launch":
+            sub = self.ctx.sub_for_abs((d.get("env") or {}).get("JADE_RUNTIME_OUTPUT"))
+            if sub is None or sub.epoch != 0 or d["name"] not in sub.sc.spec:
+                return
+            if self.ref(sub).get(d["name"]) == "canceled":
+                self.bad("canceled_but_ran", "canceled job's command was started",
+                         f"{d['name']} launched at seq {seq} although a blocker failed or was canceled and it is flagged", "C04")
+
+    def check_canceled_rows(self, sub):
+        """Every canceled row on disk (complete or not): non-zero code, justified, never launched."""
+        try:
+            rows = [r for _, r in state.all_rows(sub.out)]
+        except state.Unparsable:
+            return
+        ref = self.ref(sub)
+        for r in rows:
+            if r["status"] != "canceled" or r["name"] not in sub.sc.spec:
+                continue
+            n = r["name"]
+            if r["return_code"] == 0:
+                self.bad("canceled_rc_zero", "canceled result carries return code 0", f"{n}", "C04")
+            if ref.get(n) != "canceled":
+                self.bad("wrongly_canceled", "job canceled although reference says it runs", f"{n}: reference {ref.get(n)}", "C04")
+            if sub.launches.get(n):
+                self.bad("canceled_but_ran", "canceled job's command was started", f"{n}: {len(sub.launches[n])} launches", "C04")
 
     def finish(self):
         ctx = self.ctx
@@ -154,6 +191,8 @@ class C03C04(Monitor):
         for sub in ctx.subs.values():
             if sub.epoch != 0 or sub.cancel_seq is not None:
                 continue
+            if "C04" in self.props:
+                self.check_canceled_rows(sub)
             if sub.sc.mode == "hpc":
                 if not is_fault_free_complete(ctx, sub):
                     continue
@@ -270,7 +309,12 @@ class C05(Monitor):
             if st and st["touched"] and st["removed"] and d.get("rc") == 0 and self.ctx.fault_free:
                 self._check_no_needless_wait(vp, seq)
 
+    def _lock_timeouts(self):
+        return any(r[2] == "lock_timeout" for r in self.w.history)
+
     def _check_recovery(self, vp, seq):
+        if self._lock_timeouts():
+            return  # a stall outlasted the 300 s lock timeout: legal, but not a progress obligation
         sub = self.ctx.sub_for_abs(self.w.output) or next(iter(self.ctx.subs.values()))
         for s in self.ctx.subs.values():
             if vp.argv and any(os.path.join(self.w.shared_root, s.outrel) == a for a in vp.argv):
@@ -340,7 +384,7 @@ class C05(Monitor):
 
     def finish(self):
         ctx = self.ctx
-        if not ctx.fault_free or self.w.cut:
+        if not ctx.fault_free or self.w.cut or self._lock_timeouts():
             return
         drv = self.w.driver
         for sub in ctx.subs.values():
@@ -1062,3 +1106,150 @@ class C20(Monitor):
 
 def _evnorm(ev):
     return {k: ev.get(k) for k in ("category", "data", "event_class", "message", "name", "source", "timestamp")}
+
+
+# --------------------------------------------------------------------------- C08 (world level)
+class C08World(Monitor):
+    prop = "C08"
+
+    def __init__(self, ctx):
+        super().__init__(ctx)
+        self.seen = {}
+        self.exits = {}
+
+    def on_record(self, rec):
+        seq, vt, kind, vpid, d = rec
+        if kind == "job_exit":
+            self.exits.setdefault(d["name"], []).append(d)
+        if kind != "lock_release" or not d.get("path", "").endswith("processed_results.csv.lock"):
+            return
+        sub = self.ctx.sub_for_path(d["path"])
+        if sub is None or sub.epoch != 0:
+            return
+        try:
+            rows = state.read_rows(os.path.join(sub.out, "processed_results.csv"))
+        except state.Unparsable as e:
+            self.bad("consolidated_unparsable", "the consolidated results file does not parse", f"seq {seq}: {e}")
+            return
+        if rows is None:
+            return
+        names = [r["name"] for r in rows]
+        prev = self.seen.get(sub.outrel, [])
+        if len(names) > len(prev):
+            self.w.probe("collections")
+        cnt = {}
+        for n in names:
+            cnt[n] = cnt.get(n, 0) + 1
+            if cnt[n] == 2:
+                self.bad("duplicate_row", "a result row is duplicated in the consolidated results", f"seq {seq}: {n}")
+        for n in set(prev) - set(names):
+            self.bad("row_lost", "a consolidated result row disappeared", f"seq {seq}: {n}")
+        self.seen[sub.outrel] = names
+
+    def finish(self):
+        ctx = self.ctx
+        if not ctx.fault_free:
+            return
+        for sub in ctx.subs.values():
+            if sub.epoch != 0 or not is_fault_free_complete(ctx, sub):
+                continue
+            try:
+                rows = state.read_rows(os.path.join(sub.out, "processed_results.csv")) or []
+            except state.Unparsable:
+                continue
+            by = {}
+            for r in rows:
+                by.setdefault(r["name"], []).append(r)
+            for n, ex in self.exits.items():
+                if n not in sub.sc.spec:
+                    continue
+                fin = [r for r in by.get(n, []) if r["status"] == "finished"]
+                if len(fin) != 1:
+                    self.bad("exit_not_collected_once", "a job that exited does not have exactly one consolidated result",
+                             f"{n}: {len(fin)} finished rows for {len(ex)} exits")
+                elif fin[0]["return_code"] != ex[-1]["rc"]:
+                    self.bad("cross_attributed", "consolidated result carries another exit code",
+                             f"{n}: {fin[0]['return_code']} vs {ex[-1]['rc']}")
+
+
+# --------------------------------------------------------------------------- C10 (world level)
+class C10World(Monitor):
+    """Mutual exclusion of the submitter role in full-world runs.  The role owner is the
+    command (root vproc) that wrote the on-disk `submitter` from None to a host name (or
+    created the cluster); submitter-only actions by any other command are violations."""
+
+    prop = "C10"
+
+    def __init__(self, ctx):
+        super().__init__(ctx)
+        self.owner = {}      # outrel -> root vproc id holding the role, or None
+        self.last_sub = {}   # outrel -> last observed submitter value
+        self.last_writer = {}
+
+    def _root(self, vpid):
+        if vpid is None or vpid < 0:
+            return None
+        vp = self.w.vprocs[vpid]
+        while vp.parent is not None and vp.parent.role != "node":
+            vp = vp.parent
+        return vp.id
+
+    def on_record(self, rec):
+        seq, vt, kind, vpid, d = rec
+        if kind == "fs":
+            p = d.get("path", "")
+            if p.endswith("/cluster_config.json") and d.get("op") == "write":
+                sub = self.ctx.sub_for_path(p)
+                if sub is not None:
+                    self.last_writer[sub.outrel] = vpid
+            if p.endswith("/processed_results.csv") and d.get("op") in ("write", "truncate"):
+                sub = self.ctx.sub_for_path(p)
+                if sub is not None and sub.monitoring and sub.sc.mode == "hpc":
+                    self._act(sub, vpid, seq, "wrote the consolidated results")
+            if p.endswith("/job_status.json") and d.get("op") == "write":
+                sub = self.ctx.sub_for_path(p)
+                if sub is not None and sub.monitoring and sub.sc.mode == "hpc":
+                    self._act(sub, vpid, seq, "wrote the job status")
+        elif kind == "sbatch" and d.get("attempt", 1) == 1:
+            sub = self.ctx.sub_for_path(d.get("output"))
+            if sub is not None:
+                self._act(sub, vpid, seq, f"handed batch {d.get('batch')} to the HPC")
+
+    def _act(self, sub, vpid, seq, what):
+        own = self.owner.get(sub.outrel)
+        r = self._root(vpid)
+        if own is None:
+            self.bad("acted_without_role", "a process performed a submitter-only action while nobody held the role",
+                     f"seq {seq}: {self.w.vprocs[vpid].role} {what}")
+        elif own != r:
+            o = self.w.vprocs[own]
+            self.bad("acted_while_other_holds_role", "a process performed a submitter-only action while another holds the role",
+                     f"seq {seq}: {self.w.vprocs[vpid].role} on {self.w.vprocs[vpid].host} {what}; role held by "
+                     f"{o.role} on {o.host} (alive={o.alive})")
+
+    def on_status(self, sub, o):
+        cfg = o.get("cfg")
+        if cfg is None:
+            return
+        cur = cfg.get("submitter")
+        prev = self.last_sub.get(sub.outrel, "<none yet>")
+        writer = self._root(self.last_writer.get(sub.outrel))
+        if prev == "<none yet>":
+            if cur is not None:
+                self.owner[sub.outrel] = writer
+        elif prev is None and cur is not None:
+            self.w.probe("role_handover")
+            self.owner[sub.outrel] = writer
+        elif prev is not None and cur is None:
+            own = self.owner.get(sub.outrel)
+            if own is not None and writer is not None and writer != own and self.w.vprocs[own].alive:
+                wv = self.w.vprocs[writer]
+                ov = self.w.vprocs[own]
+                self.bad("role_stripped", "a process that was not promoted cleared the submitter role of a live submitter",
+                         f"seq {o['seq']}: {wv.role} on {wv.host} cleared the role held by {ov.role} on {ov.host}")
+            self.owner[sub.outrel] = None
+        elif prev is not None and cur is not None and prev != cur:
+            self.bad("role_overwritten", "the submitter role changed hands without being released",
+                     f"seq {o['seq']}: {prev} -> {cur}")
+            self.owner[sub.outrel] = writer
+        self.last_sub[sub.outrel] = cur
